@@ -3,6 +3,8 @@ package c09
 import (
 	"bytes"
 	"encoding/hex"
+	"reflect"
+	"strconv"
 	"testing"
 
 	"verif/internal/rfc6962"
@@ -121,6 +123,38 @@ func selfTest(t *testing.T) {
 		dv, n, _, err := refDec(&merkleTreeLeaf, want, quirks{})
 		if err != nil || n != len(want) || !eqVal(&merkleTreeLeaf, &dv, &lc.v) {
 			t.Fatalf("selftest leaf %d: refDec = %s, %d, %v", i, show(dv), n, err)
+		}
+	}
+	// the hand-written descriptors of the static types must describe the declared Go types
+	for i := range staticTypes {
+		s := &staticTypes[i]
+		if s.Type.Kind() != reflect.Struct || s.Type.NumField() != len(s.Desc.Fields) {
+			t.Fatalf("selftest: static type %s: descriptor has %d fields, Go type %s", s.Name, len(s.Desc.Fields), s.Type)
+		}
+		for j := range s.Desc.Fields {
+			f, gf := &s.Desc.Fields[j], s.Type.Field(j)
+			wantTag, wantType := f.D.tag(), gf.Type
+			if f.Arm {
+				sel := "selector:" + s.Type.Field(f.Sel).Name + ",val:" + strconv.FormatUint(f.Val, 10)
+				if wantTag != "" {
+					sel += "," + wantTag
+				}
+				wantTag = sel
+				if gf.Type.Kind() != reflect.Ptr {
+					t.Fatalf("selftest: static type %s field %s: arm is not a pointer", s.Name, gf.Name)
+				}
+				wantType = gf.Type.Elem()
+			}
+			if gf.Tag.Get("tls") != wantTag {
+				t.Fatalf("selftest: static type %s field %s: tag %q, descriptor says %q", s.Name, gf.Name, gf.Tag.Get("tls"), wantTag)
+			}
+			if got := f.D.goType(); got != wantType {
+				t.Fatalf("selftest: static type %s field %s: Go type %s, descriptor says %s", s.Name, gf.Name, wantType, got)
+			}
+		}
+		z := zeroVal(&s.Desc)
+		if b, _, _, err := refEnc(&s.Desc, &z, quirks{}); err != nil {
+			t.Fatalf("selftest: static type %s: zero value does not encode: %v (%x)", s.Name, err, b)
 		}
 	}
 	for _, d := range []*Desc{&variantItem, &merkleTreeLeaf, &digitallySigned} {
